@@ -17,6 +17,22 @@ use serde_json::json;
 const LEAF0: u32 = 100; // leaf i (1-based) has id LEAF0 + i
 const REC0: u32 = 5000; // record j (1-based) has id REC0 + j
 
+thread_local! {
+    /// record ids of the staircase in use, by record number (None: REC0 + j)
+    static REC_IDS: std::cell::RefCell<Option<Vec<u32>>> = std::cell::RefCell::new(None);
+}
+
+fn rec_id(j: u32) -> u32 {
+    REC_IDS.with(|m| m.borrow().as_ref().map_or(REC0 + j, |v| v[j as usize]))
+}
+
+fn rec_no(id: u32) -> usize {
+    REC_IDS.with(|m| match m.borrow().as_ref() {
+        None => id.wrapping_sub(REC0) as usize,
+        Some(v) => v.iter().position(|x| *x == id).unwrap_or(0),
+    })
+}
+
 fn staircase(l: usize, kinds: &[Kind]) -> Ontology {
     let mut f = Facts::default();
     f.terms.push(Facts::term(1, "root"));
@@ -27,7 +43,7 @@ fn staircase(l: usize, kinds: &[Kind]) -> Ontology {
     for &k in kinds {
         for j in 1..=l as u32 {
             for i in 1..=j {
-                f.anns.push(Facts::ann(k, REC0 + j, &format!("R{j}"), Some(LEAF0 + i)));
+                f.anns.push(Facts::ann(k, rec_id(j), &format!("R{j}"), Some(LEAF0 + i)));
             }
         }
     }
@@ -204,7 +220,7 @@ fn check_n_n(ctx: &mut Ctx, ont: &Ontology, l: usize, kind: Kind, big_n: usize, 
         // exactly one record per annotation with k >= 1
         let mut seen = vec![false; l + 1];
         for (id, count, p, fold) in &res {
-            let j = (*id - REC0) as usize;
+            let j = rec_no(*id);
             if j == 0 || j > l || seen[j] {
                 ctx.violation(site(kind), "returns an unknown annotation or the same annotation twice", case(json!({"id": id})));
                 continue;
@@ -290,6 +306,91 @@ pub fn run(ctx: &mut Ctx) {
             }
         }
     }
+    // ---- hierarchies: backgrounds and samples that contain ancestors together with their descendants, the root,
+    // unannotated terms; the ontology itself as background (the documented call)
+    for n in 2..=(if thorough { 4 } else { 3 }) {
+        let dags = crate::space::all_dags(n);
+        ctx.space(&format!("hierarchy/D{n}"), &format!("{} labelled DAGs, record i of every kind on term i (inherited by its ancestors), a bare record: every non-empty background subset B (and `&ontology` itself) x every non-empty sample S within B x 3 kinds: one result per record linked to a sample term, K and k counted over inherited links, exact tail, fold", dags.len()));
+        for d in &dags {
+            if !ctx.take() {
+                continue;
+            }
+            ctx.state();
+            ctx.nontrivial();
+            let mut f = Facts::from_dag(d, &[1, 7, 118, 4000, 77_777, 9_999_999]);
+            let ids: Vec<u32> = f.terms.iter().map(|t| t.id).collect();
+            for kind in KINDS {
+                for (i, t) in ids.iter().enumerate() {
+                    f.anns.push(Facts::ann(kind, 50 + i as u32, &format!("R{i}"), Some(*t)));
+                }
+                f.anns.push(Facts::ann(kind, 99, "bare", None));
+            }
+            let r = crate::model::RefOnt::derive(&f);
+            let Ok(ont) = drive::build(&f, Mode::Minimal) else {
+                ctx.violation("Builder", "[builder] construction fails on valid facts", json!({"case": f.to_json()}));
+                continue;
+            };
+            ctx.transitions(f.n_steps());
+            let full = (1u32 << n) - 1;
+            for bmask in 1..=full + 1 {
+                // bmask == full + 1 stands for `&ontology` handed over as the background
+                let whole = bmask == full + 1;
+                let bm = if whole { full } else { bmask };
+                let bg_ids: Vec<u32> = crate::space::bits(bm, n).iter().map(|i| ids[*i]).collect();
+                let mut smask = bm;
+                while smask > 0 {
+                    let s_ids: Vec<u32> = crate::space::bits(smask, n).iter().map(|i| ids[*i]).collect();
+                    for kind in KINDS {
+                        ctx.exec();
+                        ctx.validated();
+                        ctx.transitions(1);
+                        let got = guard(|| {
+                            let smp = s_ids.iter().map(|t| ont.hpo(*t).unwrap());
+                            let mut v: Vec<(u32, u64, f64, f64)> = match (kind, whole) {
+                                (Kind::Gene, true) => gene_enrichment(&ont, smp).iter().map(|e| (e.id().as_u32(), e.count(), e.pvalue(), e.enrichment())).collect(),
+                                (Kind::Omim, true) => omim_disease_enrichment(&ont, smp).iter().map(|e| (e.id().as_u32(), e.count(), e.pvalue(), e.enrichment())).collect(),
+                                (Kind::Orpha, true) => orpha_disease_enrichment(&ont, smp).iter().map(|e| (e.id().as_u32(), e.count(), e.pvalue(), e.enrichment())).collect(),
+                                (Kind::Gene, false) => gene_enrichment(bg_ids.iter().map(|t| ont.hpo(*t).unwrap()), smp).iter().map(|e| (e.id().as_u32(), e.count(), e.pvalue(), e.enrichment())).collect(),
+                                (Kind::Omim, false) => omim_disease_enrichment(bg_ids.iter().map(|t| ont.hpo(*t).unwrap()), smp).iter().map(|e| (e.id().as_u32(), e.count(), e.pvalue(), e.enrichment())).collect(),
+                                (Kind::Orpha, false) => orpha_disease_enrichment(bg_ids.iter().map(|t| ont.hpo(*t).unwrap()), smp).iter().map(|e| (e.id().as_u32(), e.count(), e.pvalue(), e.enrichment())).collect(),
+                            };
+                            v.sort_by_key(|x| x.0);
+                            v
+                        });
+                        let case = |extra: serde_json::Value| json!({"facts": f.to_json(), "background": if whole { json!("&ontology") } else { json!(bg_ids) }, "sample": s_ids, "kind": kind.name(), "detail": extra});
+                        let res = match got {
+                            Ok(x) => x,
+                            Err(p) => {
+                                ctx.violation(site(kind), "panics", case(json!({"observed": p})));
+                                continue;
+                            }
+                        };
+                        let linked = |t: u32, rec: u32| r.terms[&t].recs[kind.idx()].contains(&rec);
+                        let (big_n, sn) = (bg_ids.len(), s_ids.len());
+                        let want: Vec<(u32, usize, usize)> = (0..n as u32).map(|i| (50 + i, bg_ids.iter().filter(|t| linked(**t, 50 + i)).count(), s_ids.iter().filter(|t| linked(**t, 50 + i)).count())).filter(|w| w.2 > 0).collect();
+                        if res.len() != want.len() || res.iter().zip(&want).any(|(x, w)| x.0 != w.0) {
+                            ctx.violation(site(kind), "not exactly one record per annotation linked to a sample term", case(json!({"observed_ids": res.iter().map(|x| x.0).collect::<Vec<_>>(), "expected_ids": want.iter().map(|w| w.0).collect::<Vec<_>>()})));
+                            continue;
+                        }
+                        for (x, w) in res.iter().zip(&want) {
+                            let (big_k, k) = (w.1, w.2);
+                            let want_p = exact.p(big_n, big_k, sn, k);
+                            let want_fold = (k as f64 / sn as f64) / (big_k as f64 / big_n as f64);
+                            if x.1 != k as u64 {
+                                ctx.violation(site(kind), "count is not the number of linked sample terms", case(json!({"record": w.0, "K": big_k, "k": k, "observed_count": x.1})));
+                            } else if !(x.2 >= 0.0 && x.2 <= 1.0) || (x.2 - want_p).abs() > 1e-9 * want_p {
+                                ctx.violation(site(kind), "p-value is not the hypergeometric tail P[X >= k]", case(json!({"record": w.0, "N": big_n, "K": big_k, "n": sn, "k": k, "observed_p": x.2, "expected_p": want_p})));
+                            } else if !((x.3 - want_fold).abs() <= 1e-12 * want_fold.abs()) {
+                                ctx.violation(site(kind), "fold enrichment is not (k/n)/(K/N)", case(json!({"record": w.0, "N": big_n, "K": big_k, "n": sn, "k": k, "observed": x.3, "expected": want_fold})));
+                            }
+                        }
+                    }
+                    smask = (smask - 1) & bm;
+                }
+            }
+            ctx.sample(|| json!({"dag": d.describe(), "ids": ids}));
+        }
+    }
     // ---- the same sweep on a decoded ontology whose leaves are partly obsolete and / or replaced
     {
         let lf = if thorough { 24 } else { 14 };
@@ -317,6 +418,46 @@ pub fn run(ctx: &mut Ctx) {
                 }
             }
         }
+    }
+    // ---- record ids from a spread pool (the staircases above use ids 5001..): N <= 12, all kinds
+    {
+        let pool: Vec<u32> = vec![0, 1, 255, 256, 65_535, 65_536, (1 << 24) + 1, 100_000_007, u32::MAX - 1, u32::MAX, 0x8000_0000, 77, 5000];
+        REC_IDS.with(|m| *m.borrow_mut() = Some(pool.clone()));
+        let l = 12usize;
+        let sp = staircase(l, &KINDS);
+        for kind in KINDS {
+            ctx.space(&format!("exact/{}/spread-record-ids/N<=12", kind.name()), &format!("records with the ids {:?}: all N <= 12, all n <= N, all window starts", &pool[1..=l]));
+            for big_n in 1..=l {
+                for n in 1..=big_n {
+                    if !ctx.take() {
+                        continue;
+                    }
+                    ctx.state();
+                    let starts: Vec<usize> = (1..=big_n - n + 1).rev().collect();
+                    check_n_n(ctx, &sp, l, kind, big_n, n, &starts, &exact, true);
+                }
+            }
+        }
+        REC_IDS.with(|m| *m.borrow_mut() = None);
+    }
+    // ---- populations between the exhaustive bound and the factorial-table seam: every N in 31..=167 with a few n
+    if !thorough {
+        let l = 174usize;
+        let ont = staircase(l, &[Kind::Gene]);
+        ctx.space("exact/gene/N=31..167/selected-n", "every N in 31..=167, n in {1, 2, N/3, N/2, N-1, N}, all window starts; records 1..174 (all n in the thorough tier up to N = 64 and from 150)");
+        for big_n in 31..=167usize {
+            let mut ns = vec![1usize, 2, big_n / 3, big_n / 2, big_n - 1, big_n];
+            ns.dedup();
+            for n in ns {
+                if !ctx.take() {
+                    continue;
+                }
+                ctx.state();
+                let starts: Vec<usize> = (1..=big_n - n + 1).rev().collect();
+                check_n_n(ctx, &ont, l, Kind::Gene, big_n, n, &starts, &exact, true);
+            }
+        }
+        ctx.mark_partial("N = 31..167: a listed subset of n by design");
     }
     // ---- populations straddling the 170-entry factorial table (genes)
     {
@@ -438,16 +579,35 @@ pub fn run(ctx: &mut Ctx) {
             ctx.mark_partial("large-population slices are a listed subset of (n, s) by design");
         }
     }
-    // ---- (last: 100 000 terms leave garbage in the allocator) counts whose PRODUCTS exceed 32 bits: a background of
-    // 100 000 leaves, gene 1 on leaves 1..70 000, gene 2 on leaves 60 001..100 000, samples of 42 000, 43 000,
-    // 70 000 and all 100 000 leaves
+    // ---- (last: 100 000 terms leave garbage in the allocator) populations of real-HPO size and beyond: a background
+    // of the first N of 100 000 leaves for N in {4097, 18 500, 65 537, 100 000}; records on leaves 1..70 000,
+    // 60 001..100 000, every 2500th, every 143rd and every 11th leaf; samples of 50 and 1000 consecutive leaves,
+    // 1000 evenly spread leaves, and the big samples whose count PRODUCTS exceed 32 bits
     {
-        ctx.space("huge/N=100000", "flat ontology with 100 000 leaves; gene 1 on leaves 1..70000, gene 2 on leaves 60001..100000 (likewise one OMIM and one ORPHA record each); samples {1..42000, 1..43000, 30001..100000, all}: count, fold enrichment exactly, p-value against the log-domain reference");
-        let big_n = 100_000usize;
-        let samples: [(usize, usize); 4] = [(1, 42_000), (1, 43_000), (30_001, 100_000), (1, 100_000)];
+        ctx.space("huge/N<=100000", "flat ontology with 100 000 leaves; records {1: leaves 1..70000, 2: 60001..100000, 3: every 2500th, 4: every 143rd, 5: every 11th} of each kind; backgrounds = the first N leaves, N in {4097, 18500, 65537, 100000}; samples {first 50, first 1000, 1000 evenly spread, and for N = 100000: 1..42000, 1..43000, 30001..100000, all}: one record per linked annotation, count, fold enrichment exactly, p-value against the log-domain reference (rtol 1e-6)");
+        let total = 100_000usize;
+        let pred = |rec: u32, i: usize| -> bool {
+            match rec {
+                1 => i <= 70_000,
+                2 => i >= 60_001,
+                3 => i % 2500 == 0,
+                4 => i % 143 == 0,
+                _ => i % 11 == 0,
+            }
+        };
+        let mut cases: Vec<(usize, Vec<usize>, String)> = vec![];
+        for big_n in [4097usize, 18_500, 65_537, 100_000] {
+            cases.push((big_n, (1..=50).collect(), "the first 50 leaves".into()));
+            cases.push((big_n, (1..=1000).collect(), "the first 1000 leaves".into()));
+            let step = big_n / 1000;
+            cases.push((big_n, (1..=1000).map(|j| j * step).collect(), format!("every {step}th leaf (1000 leaves)")));
+        }
+        for (lo, hi) in [(1usize, 42_000usize), (1, 43_000), (30_001, 100_000), (1, 100_000)] {
+            cases.push((total, (lo..=hi).collect(), format!("leaves {lo}..={hi}")));
+        }
         let mut ont: Option<Ontology> = None;
         let mut lref: Option<LogDomain> = None;
-        for (lo, hi) in samples {
+        for (big_n, sample, label) in &cases {
             if !ctx.take() {
                 continue;
             }
@@ -456,42 +616,43 @@ pub fn run(ctx: &mut Ctx) {
             if ont.is_none() {
                 let mut f = Facts::default();
                 f.terms.push(Facts::term(1, "root"));
-                for i in 1..=big_n as u32 {
+                for i in 1..=total as u32 {
                     f.terms.push(Facts::term(LEAF0 + i, "l"));
                     f.edges.push((LEAF0 + i, 1));
                 }
                 for kind in KINDS {
-                    for i in 1..=70_000u32 {
-                        f.anns.push(Facts::ann(kind, 1, "ONE", Some(LEAF0 + i)));
-                    }
-                    for i in 60_001..=100_000u32 {
-                        f.anns.push(Facts::ann(kind, 2, "TWO", Some(LEAF0 + i)));
+                    for rec in 1..=5u32 {
+                        for i in 1..=total {
+                            if pred(rec, i) {
+                                f.anns.push(Facts::ann(kind, rec, "R", Some(LEAF0 + i as u32)));
+                            }
+                        }
                     }
                 }
                 ont = drive::build(&f, Mode::Minimal).ok();
-                lref = Some(LogDomain::new(big_n + 1));
+                lref = Some(LogDomain::new(total + 1));
             }
             let (Some(o), Some(lr)) = (ont.as_ref(), lref.as_ref()) else {
-                ctx.violation("Builder", "[builder] construction fails on valid facts", json!({"leaves": big_n}));
+                ctx.violation("Builder", "[builder] construction fails on valid facts", json!({"leaves": total}));
                 break;
             };
-            let n = hi - lo + 1;
+            let (big_n, n) = (*big_n, sample.len());
             for kind in KINDS {
                 ctx.exec();
                 ctx.validated();
                 ctx.transitions(1);
                 let got = guard(|| {
                     let bg = (1..=big_n as u32).map(|i| o.hpo(LEAF0 + i).unwrap());
-                    let sample = (lo as u32..=hi as u32).map(|i| o.hpo(LEAF0 + i).unwrap());
+                    let smp = sample.iter().map(|i| o.hpo(LEAF0 + *i as u32).unwrap());
                     let mut v: Vec<(u32, u64, f64, f64)> = match kind {
-                        Kind::Gene => gene_enrichment(bg, sample).iter().map(|e| (e.id().as_u32(), e.count(), e.pvalue(), e.enrichment())).collect(),
-                        Kind::Omim => omim_disease_enrichment(bg, sample).iter().map(|e| (e.id().as_u32(), e.count(), e.pvalue(), e.enrichment())).collect(),
-                        Kind::Orpha => orpha_disease_enrichment(bg, sample).iter().map(|e| (e.id().as_u32(), e.count(), e.pvalue(), e.enrichment())).collect(),
+                        Kind::Gene => gene_enrichment(bg, smp).iter().map(|e| (e.id().as_u32(), e.count(), e.pvalue(), e.enrichment())).collect(),
+                        Kind::Omim => omim_disease_enrichment(bg, smp).iter().map(|e| (e.id().as_u32(), e.count(), e.pvalue(), e.enrichment())).collect(),
+                        Kind::Orpha => orpha_disease_enrichment(bg, smp).iter().map(|e| (e.id().as_u32(), e.count(), e.pvalue(), e.enrichment())).collect(),
                     };
                     v.sort_by_key(|x| x.0);
                     v
                 });
-                let case = |extra: serde_json::Value| json!({"layout": "100 000 leaves; record 1 on leaves 1..70000, record 2 on leaves 60001..100000", "sample": format!("leaves {lo}..={hi}"), "kind": kind.name(), "detail": extra});
+                let case = |extra: serde_json::Value| json!({"layout": "100 000 leaves; records 1: leaves 1..70000, 2: 60001..100000, 3: every 2500th, 4: every 143rd, 5: every 11th leaf", "background": format!("the first {big_n} leaves"), "sample": label, "kind": kind.name(), "detail": extra});
                 let res = match got {
                     Ok(r) => r,
                     Err(p) => {
@@ -499,8 +660,7 @@ pub fn run(ctx: &mut Ctx) {
                         continue;
                     }
                 };
-                let overlap = |a: usize, b: usize| -> usize { hi.min(b).saturating_sub(lo.max(a)).wrapping_add(1).min(if hi.min(b) >= lo.max(a) { usize::MAX } else { 0 }) };
-                let want: Vec<(u32, usize, usize)> = [(1u32, 70_000usize, overlap(1, 70_000)), (2, 40_000, overlap(60_001, 100_000))].into_iter().filter(|w| w.2 > 0).collect();
+                let want: Vec<(u32, usize, usize)> = (1..=5u32).map(|rec| (rec, (1..=big_n).filter(|i| pred(rec, *i)).count(), sample.iter().filter(|i| pred(rec, **i)).count())).filter(|w| w.2 > 0).collect();
                 if res.len() != want.len() || res.iter().zip(&want).any(|(r, w)| r.0 != w.0) {
                     ctx.violation(site(kind), "not exactly one record per annotation linked to a sample term", case(json!({"observed_ids": res.iter().map(|r| r.0).collect::<Vec<_>>(), "expected_ids": want.iter().map(|w| w.0).collect::<Vec<_>>()})));
                     continue;
@@ -517,12 +677,15 @@ pub fn run(ctx: &mut Ctx) {
                         continue;
                     }
                     let want_p = lr.p(big_n, big_k, n, k);
+                    if want_p > 1e-300 && want_p < 0.999 {
+                        ctx.bump("huge_nontrivial_p_values", 1);
+                    }
                     if !(r.2 >= 0.0 && r.2 <= 1.0) || (r.2 - want_p).abs() > 1e-6 * want_p.abs() + 2e-323 {
                         ctx.violation(site(kind), "p-value is not the hypergeometric tail P[X >= k]", case(json!({"record": w.0, "N": big_n, "K": big_k, "n": n, "k": k, "observed_p": r.2, "expected_p": want_p})));
                     }
                 }
             }
-            ctx.sample(|| json!({"N": big_n, "sample": [lo, hi]}));
+            ctx.sample(|| json!({"N": big_n, "sample": label}));
         }
     }
 }
